@@ -68,6 +68,8 @@ NAME_SPECIAL = {("cg_coord_read", "coordname"): '"CoordinateX"', ("cg_coord_gene
                 ("cg_subreg_gcname_write", "gcname"): '"Conn1"', ("cg_node_family_name_write", "family_name"): '"Fam1"',
                 ("cg_zone_id", "x"): "x", ("cg_particle_model_read", "ModelLabel"): '"ParticleCollisionModel_t"',
                 ("cg_particle_model_write", "ModelLabel"): '"ParticleCollisionModel_t"'}
+EXTRA_CTX = {"cg_ptset_read": [10, 12, 9], "cg_ptset_info": [10, 12, 9], "cg_descriptor_read": [8, 2], "cg_ndescriptors": [8, 2],
+             "cg_dataclass_read": [2, 8], "cg_units_read": [2], "cg_narrays": [3], "cg_array_info": [3], "cg_gridlocation_read": [3, 9]}
 CTX_RULES = [(r"^cg_rind_", 3), (r"^cg_(exponents|expfull|conversion|nexponents)", 4),
              (r"^cg_(convergence|state|equationset|integral|nintegrals|gravity|axisym)", 2), (r"^cg_(governing|model)_", 5),
              (r"^cg_diffusion_", 15), (r"^cg_(bcdataset|nbcdataset)", 7), (r"^cg_node_", 6), (r"^cg_(rotating|multifam|nmultifam)", 8),
@@ -235,11 +237,13 @@ def gen_stubs(d, path):
             flags |= 2
         if name in ("cgio_compress_file",):
             flags |= 4
-        entries.append(dict(name=name, doc=a["doc"], nvar=len(variants), ctx=ctx_of(name, params), flags=flags,
+        entries.append(dict(name=name, fn=name, doc=a["doc"], nvar=len(variants), ctx=ctx_of(name, params), flags=flags,
                             variants=[(v[0], v[2]) for v in variants]))
+        for c in EXTRA_CTX.get(name, []):          # the same entry point at another position of the tree
+            entries.append(dict(entries[-1], name="%s@%d" % (name, c), ctx=c))
     out.append("static const entry_t entries[] = {")
     for e in entries:
-        out.append('  {"%s", call_%s, %d, %d, %d, vd_%s},' % (e["name"], e["name"], e["nvar"], e["ctx"], e["flags"], e["name"]))
+        out.append('  {"%s", call_%s, %d, %d, %d, vd_%s},' % (e["name"], e["fn"], e["nvar"], e["ctx"], e["flags"], e["fn"]))
     out.append("};")
     out.append("#define NENTRIES %d" % len(entries))
     txt = "\n".join(out) + "\n"
@@ -254,3 +258,322 @@ def build_driver(d):
     entries, static_only = gen_stubs(d, os.path.join(gen, "c07_stubs.inc"))
     exe = vlib.build_harness("c07_drv", ["c07_drv.c"], includes=[gen])
     return exe, entries, static_only
+
+
+# ------------------------------------------------------------------------------------------------ running the driver
+def parse_lines(lines):
+    """-> (results [dict per R line], name of the call that was running when the process died or None)"""
+    res, pending = [], None
+    for l in lines:
+        if l.startswith("C "):
+            t = l.split()
+            pending = (t[1], int(t[2][2:])) if len(t) >= 3 else None
+        elif l.startswith("R "):
+            t = l.split()
+            r = {"name": t[1], "v": int(t[2][2:]) if len(t) > 2 and t[2].startswith("v=") else 0}
+            for kv in t[3:]:
+                if "=" in kv:
+                    k, v = kv.split("=", 1)
+                    r[k] = v
+                elif kv == "OPENFAIL":
+                    r["openfail"] = True
+            if "desc" in r:
+                r["desc"] = l.split("desc=", 1)[1]
+            res.append(r)
+            pending = None
+    return res, pending
+
+
+def run_pass(exe, op, args_before, n, work, args_after=(), per=None, timeout=300):
+    """run `op` over entries [0, n) restarting after a crash; -> (results, crashes [(name, variant, outcome)])"""
+    out, crashes, start, guard = [], [], 0, 0
+    vstart = None
+    while start < n and guard < 60:
+        guard += 1
+        a = [op] + list(args_before) + [str(start), str(n)] + list(args_after) + ([str(vstart)] if vstart is not None else [])
+        lines, outcome = vlib.run_impl(exe, "", args=a, cwd=work, timeout=timeout)
+        res, pending = parse_lines(lines)
+        out += res
+        if outcome == "ok" and pending is None:
+            break
+        if pending is None:
+            crashes.append(("<between calls>", 0, outcome))
+            break
+        crashes.append((pending[0], pending[1], outcome))
+        idx = per[pending[0]]
+        if op == "inv":
+            # resume with the next variant of the same entry
+            nv = per["#nvar"][pending[0]]
+            if pending[1] + 1 < nv:
+                start, vstart = idx, pending[1] + 1
+                # results of this entry before the crash are kept; run only this entry's remaining variants, then go on
+                lines2, outcome2 = vlib.run_impl(exe, "", args=[op] + list(args_before) + [str(idx), str(idx + 1), str(vstart)], cwd=work, timeout=timeout)
+                r2, p2 = parse_lines(lines2)
+                out += r2
+                k = 0
+                while (outcome2 != "ok" or p2 is not None) and p2 is not None and k < 40:
+                    k += 1
+                    crashes.append((p2[0], p2[1], outcome2))
+                    if p2[1] + 1 >= nv:
+                        break
+                    lines2, outcome2 = vlib.run_impl(exe, "", args=[op] + list(args_before) + [str(idx), str(idx + 1), str(p2[1] + 1)], cwd=work, timeout=timeout)
+                    r2, p2 = parse_lines(lines2)
+                    out += r2
+            start, vstart = idx + 1, None
+        else:
+            start = idx + 1
+    return out, crashes
+
+
+def make_templates(exe, work):
+    t = {}
+    for b in BACKENDS:
+        for s in STATES:
+            p = os.path.join(work, "t_%s_%s.cgns" % (b, s))
+            lines, outcome = vlib.run_impl(exe, "", args=["build", b, s, p], cwd=work)
+            if outcome != "ok" or not os.path.exists(p):
+                raise vlib.Infra("template %s/%s could not be built: %s %s" % (b, s, outcome, lines[-3:]))
+            t[(b, s)] = p
+    return t
+
+
+def model_lists():
+    out = {}
+    for l in vlib.run_model("c07", "", args=["lists"]):
+        t = l.split()
+        if t and t[0] == "l":
+            out[t[1]] = t[2:]
+    return out
+
+
+def seq_fails(exe, tmpl, work_dir, mode, idxs):
+    lines, outcome = vlib.run_impl(exe, "", args=["seq", tmpl, os.path.join(work_dir, "seq.cgns"), str(mode), str(len(idxs))] + [str(i) for i in idxs],
+                                   cwd=work_dir, timeout=120)
+    end = [l for l in lines if l.startswith("END")]
+    if outcome != "ok":
+        return True, {"outcome": outcome, "last": lines[-2:]}
+    if not end:
+        return True, {"outcome": "no END line", "last": lines[-2:]}
+    if "CHANGED" in end[0]:
+        return True, {"end": end[0]}
+    return False, None
+
+
+def run(ck):
+    big = ck.tier == "thorough"
+    vlib.build_impl()
+    info, d = c07_gates.write_gen(repo=vlib.REPO, impl=vlib.IMPL)
+    exe, entries, static_only = build_driver(d)
+    idx = {e["name"]: i for i, e in enumerate(entries)}
+    res = vlib.coq_check_properties("C07")
+    broken = ck.proof_result(res, CHECKER)
+    forb = vlib.coq_forbidden_scan("C07")
+    ck.extra["forbidden_tokens"] = forb
+    if forb:
+        ck.violation({"broken_obligation": "forbidden tokens in the Coq files C07 depends on", "hits": forb}, nofail=True)
+    vlib.build_modelrun("c07")
+    L = model_lists()
+    mutators, gated = set(L.get("mutators", [])), set(L.get("gated", []))
+    known_u, known_r = set(L.get("known_ungated", [])), set(L.get("known_impure_readers", []))
+    docs = {a["name"]: a["doc"] for a in d["api"]}
+    ck.extra["translator"] = dict(info, rows_api=len(d["api"]), mutators=len(mutators), gated=len(gated & set(docs)),
+                                  documented_writers=sum(1 for a in d["api"] if a["doc"] == "Write"),
+                                  documented_reads=sum(1 for a in d["api"] if a["doc"] == "Read"),
+                                  readers_storing_through_tree=len(L.get("mirror_readers", [])),
+                                  static_exceptions=sorted(known_u | known_r),
+                                  rows_failing_mutators_gated=L.get("bad_mutators", []), rows_failing_readers_pure=L.get("bad_readers", []),
+                                  unknown_externs=L.get("unknown_externs", []))
+    ck.cov["trusted_base"] = [
+        "Coq 8.16.1 kernel + vm_compute (no native_compute)",
+        "translators/c07_gates.py (clang 14 -ast-dump=json of the four files with the build's include paths; the walk that turns a body "
+        "into events and the cond/rf/mg/lm flags) -- cross-checked: every entry point is called on a read-mode handle and in modify mode",
+        "the specification-side lists of coq/Gates.v: prim_effects, benign_externs, file_ops, cgio_mutators, known_ungated, "
+        "known_impure_readers; the naming rule doc_class of the translator (what is documented as a writer)",
+        "the flat event order stands for control flow: sound for gate-before-effect because gates only count when unconditional and "
+        "functions with a goto before the gate are rejected; loops are linearised once",
+        "extraction: ExtrOcamlBasic only; OCaml 4.13.1; ocaml/eng_c07.ml",
+        "harness/c07_drv.c (SHA-256, cgio tree walk, read-API view, template files), the stub generator in checks/C07.py, ASan/UBSan",
+    ]
+    ck.assumptions = ["the back ends (ADF_*/ADFH_* mutators, unlink/rename) are the only primitives that change a file; everything else changes "
+                      "it by calling them (Gates.prim_effects)",
+                      "the user's error callback (cg_error_handler) does not call the library",
+                      "cg_open / cgio_open_file / cg_save_as are outside the domain: they name a file, they are not calls on a read-mode handle "
+                      "(cg_save_as is exercised dynamically: the source stays unchanged)",
+                      "functions of other translation units (cg_ftoc.c, cgnstools, ADF/ADFH internals) are not in the table"]
+    ck.cov["rule"] = ("every callable public entry point (stub generated from the prototype table) x {ADF, HDF5} x {rich structured, unstructured "
+                      "with fixed/poly/mixed sections, bare zone} : (a) on a READ-mode handle: status, SHA-256 of the file, digest of the read-API "
+                      "view on the same handle before/after; (b) in MODIFY mode on a fresh copy: cgio tree digest after close vs after a bare "
+                      "open+close; (c) seeded random sequences of 12 read calls in READ and MODIFY mode. non-trivial = a call of a mutator on a "
+                      "read-mode handle, or a read call that returned CG_OK in MODIFY mode; distinct by (entry point, back end, state, mode)")
+    work = ck.work
+    tm = make_templates(exe, work)
+    n = len(entries)
+    dyn = {"ro_calls": 0, "md_calls": 0, "seq_runs": 0, "crashes": [], "mutators_rejected_with_mode_message": set(), "mutators_failed_other": set(),
+           "args_valid_in_modify": set(), "entry_points_called": n, "static_only": sorted(static_only)}
+    findings = {}      # key -> replay dict (first witness)
+    inconclusive = set()
+
+    def note(key, wit):
+        findings.setdefault(key, wit)
+
+    ro_mode_rejected = {}
+    for b in BACKENDS:
+        for s in STATES:
+            wk = os.path.join(work, "w_%s_%s.cgns" % (b, s))
+            out, crashes = run_pass(exe, "ro", [tm[(b, s)], wk], n, work, per=idx)
+            for nm, v, oc in crashes:
+                dyn["crashes"].append({"pass": "ro", "backend": b, "state": s, "entry": nm, "outcome": oc})
+            for r in out:
+                if r.get("openfail"):
+                    continue
+                dyn["ro_calls"] += 1
+                nm = r["name"]
+                bn = nm.split("@")[0]
+                is_mut = docs.get(bn) == "Write" or (bn in mutators and docs.get(bn) != "Read")
+                ck.case(("ro", nm, b, s) if is_mut else None,
+                        sample={"pass": "read-mode handle", "entry": nm, "backend": b, "state": s, "status": r.get("st"), "message": r.get("msg"),
+                                "file": r.get("file"), "view": r.get("view")} if is_mut and len(ck.cov["samples"]) < 2 else None)
+                wit = {"level": "ro", "backend": b, "state": s, "entry": nm, "observed": r,
+                       "oracle": "a call on a READ-mode handle leaves the SHA-256 of the file and the read-API view unchanged; a mutator returns an error",
+                       "replay_hint": ".build/h/c07_drv ro <template> <work> %d %d" % (idx[nm], idx[nm] + 1)}
+                if r.get("file") == "CHANGED" or r.get("view") == "CHANGED":
+                    note("ungated:" + bn, wit)
+                elif is_mut and r.get("st") == "0":
+                    note("ungated:" + bn, dict(wit, what="a mutator returned success on a READ-mode handle"))
+                elif docs.get(bn) == "Read" and r.get("st") not in (None, "0") and r.get("msg") == "mode":
+                    # a documented read that is refused on a READ-mode handle "because the file is read-only" tried to write
+                    note("ungated:" + bn, dict(wit, what="a call documented as a read was refused on a READ-mode handle with a read-only message: it attempted a write"))
+                if is_mut and r.get("st") not in (None, "0"):
+                    (dyn["mutators_rejected_with_mode_message"] if r.get("msg") == "mode" else dyn["mutators_failed_other"]).add(bn)
+                if b == "adf" and s == "rich" and "@" not in nm:
+                    ro_mode_rejected[nm] = (r.get("st") not in (None, "0") and r.get("msg") == "mode")
+    ck.cov["traces_validated_against_impl"] += dyn["ro_calls"]
+
+    # (b) every entry point in MODIFY mode on a fresh copy: readers must leave the tree alone; writers tell whether the arguments were valid
+    for b in BACKENDS:
+        for s in (STATES if big else ["rich", "bare"]):
+            wk = os.path.join(work, "m_%s_%s.cgns" % (b, s))
+            out, crashes = run_pass(exe, "md", [tm[(b, s)], wk], n, work, per=idx)
+            for nm, v, oc in crashes:
+                dyn["crashes"].append({"pass": "modify", "backend": b, "state": s, "entry": nm, "outcome": oc})
+            for r in out:
+                if r.get("openfail"):
+                    continue
+                dyn["md_calls"] += 1
+                nm = r["name"]
+                bn = nm.split("@")[0]
+                reader = docs.get(bn) == "Read"
+                ck.case(("md", nm, b, s) if reader and r.get("st") == "0" else None,
+                        sample={"pass": "modify mode, fresh copy", "entry": nm, "backend": b, "state": s, "status": r.get("st"), "tree": r.get("tree")}
+                        if reader and r.get("st") == "0" and len(ck.cov["samples"]) < 4 else None)
+                if r.get("st") == "0":
+                    dyn["args_valid_in_modify"].add(bn)
+                if reader and r.get("tree") == "CHANGED":
+                    note("ungated:" + bn, {"level": "modify-reader", "backend": b, "state": s, "entry": nm, "observed": r,
+                                           "oracle": "a call documented as a read leaves the cgio tree walk of the file (after close) equal to the walk "
+                                                     "after a bare open+close in the same mode",
+                                           "replay_hint": ".build/h/c07_drv md <template> <work> %d %d" % (idx[nm], idx[nm] + 1)})
+    ck.cov["traces_validated_against_impl"] += dyn["md_calls"]
+
+    # (c) seeded random read sequences
+    excluded = known_u | known_r | {k.split(":", 1)[1] for k in findings}
+    readers = [i for i, e in enumerate(entries) if e["doc"] == "Read" and e["fn"] not in excluded and not (e["flags"] & 1)
+               and not re.search(r"^cg_(free|save_as)$", e["name"])]
+    nseq = 6 if big else 2
+    for b in BACKENDS:
+        for s in STATES:
+            for mode in (0, 2):
+                for j in range(nseq):
+                    seq = [ck.rng.choice(readers) for _ in range(12)]
+                    dyn["seq_runs"] += 1
+                    fails, det = seq_fails(exe, tm[(b, s)], work, mode, seq)
+                    ck.case(("seq", b, s, mode, j), sample=None)
+                    if fails:
+                        small = vlib.ddmin(seq, lambda sub: seq_fails(exe, tm[(b, s)], work, mode, sub)[0], max_tests=60)
+                        _, det2 = seq_fails(exe, tm[(b, s)], work, mode, small)
+                        note("ungated:" + entries[small[0]]["fn"],
+                             {"level": "sequence", "backend": b, "state": s, "mode": mode, "sequence": [entries[i]["name"] for i in small],
+                              "indices": small, "detail": det2 or det,
+                              "oracle": "a sequence of read calls leaves the cgio tree walk (and, in READ mode, the read-API view) unchanged"})
+    ck.cov["traces_validated_against_impl"] += dyn["seq_runs"]
+
+    # ---- correspondence (tie C): the extracted analysis vs what the implementation does
+    corr = []
+    for nm, rej in sorted(ro_mode_rejected.items()):
+        if nm in gated and not rej:
+            # gated per model but not rejected with a mode message: inconclusive when another check fired first
+            inconclusive.add(nm)
+        if rej and nm not in gated and nm not in mutators:
+            corr.append({"entry": nm, "model": "not gated, not a mutator", "impl": "rejected on a read-mode handle with a mode message"})
+    for nm in sorted(gated & set(idx)):
+        if ro_mode_rejected.get(nm) is False and nm in dyn["args_valid_in_modify"]:
+            # the same arguments succeed in MODIFY mode, so nothing but the gate can have failed -- yet no mode message
+            r = [x for x in [nm]]
+            corr.append({"entry": nm, "model": "gated", "impl": "valid arguments (succeed in MODIFY mode) but no mode-class rejection in READ mode"})
+    dyn["gated_but_other_check_fired_first"] = sorted(inconclusive - {c["entry"] for c in corr})
+
+    # ---- findings
+    for key, wit in sorted(findings.items()):
+        ck.finding(key, wit)
+    nm_bad = [x for x in L.get("bad_mutators", []) + L.get("bad_readers", [])]
+    unexplained = [x for x in nm_bad if ("ungated:" + x) not in findings]
+    if (broken or unexplained or corr) and not ck.violations:
+        # widen: the functions behind the broken obligation, all states, both back ends, READ and MODIFY, three repetitions with other fresh names
+        found = False
+        for x in unexplained:
+            if x not in idx:
+                continue
+            for b in BACKENDS:
+                for s in STATES:
+                    for op, extra in (("ro", []), ("md", [])):
+                        wk = os.path.join(work, "x_%s_%s.cgns" % (b, s))
+                        lines, outcome = vlib.run_impl(exe, "", args=[op, tm[(b, s)], wk, str(idx[x]), str(idx[x] + 1)] + extra, cwd=work)
+                        rr, _ = parse_lines(lines)
+                        ck.cov["evaluations"] += 1
+                        for r in rr:
+                            if r.get("file") == "CHANGED" or r.get("view") == "CHANGED" or (op == "md" and docs.get(x) == "Read" and r.get("tree") == "CHANGED") \
+                                    or outcome != "ok":
+                                ck.finding("ungated:" + x, {"level": op, "backend": b, "state": s, "entry": x, "observed": r, "outcome": outcome,
+                                                            "found_by": "widened search through the row that fails the obligation"})
+                                found = True
+        if not found and not ck.violations:
+            ck.violation({"broken_obligations": broken, "rows_failing_mutators_gated": L.get("bad_mutators", []),
+                          "rows_failing_readers_pure": L.get("bad_readers", []), "broken_correspondence": corr[:5],
+                          "note": "an obligation over the regenerated skeleton table no longer checks (or the extracted analysis and the implementation "
+                                  "disagree about a gate) but every call explored on read-mode handles left file and view unchanged and every read call "
+                                  "in MODIFY mode left the tree unchanged"}, nofail=True)
+    for k in ("mutators_rejected_with_mode_message", "mutators_failed_other", "args_valid_in_modify"):
+        dyn[k + "_count"] = len(dyn[k])
+        dyn[k] = sorted(dyn[k])[:400]
+    dyn["mutators_total"] = len(mutators | {a for a in docs if docs[a] == "Write"})
+    dyn["mutators_exercised_on_read_handle"] = len((mutators | {a for a in docs if docs[a] == "Write"}) & set(idx))
+    dyn["mutators_with_arguments_proved_valid"] = len((mutators | {a for a in docs if docs[a] == "Write"}) & set(dyn["args_valid_in_modify"]))
+    dyn["findings"] = sorted(findings)
+    ck.extra["dynamic"] = dyn
+    ck.extra["input_distribution"] = {"backends": BACKENDS, "states": STATES, "entry_points": n, "sequence_length": 12,
+                                      "sequences_per_backend_state_mode": nseq, "modes_for_sequences": ["READ", "MODIFY"]}
+
+
+def replay(ck, path):
+    r = json.load(open(path))
+    vlib.build_impl()
+    info, d = c07_gates.write_gen(repo=vlib.REPO, impl=vlib.IMPL)
+    exe, entries, static_only = build_driver(d)
+    idx = {e["name"]: i for i, e in enumerate(entries)}
+    tm = make_templates(exe, ck.work)
+    if r.get("level") in ("ro", "md", "modify-reader") and r.get("entry") in idx:
+        op = "ro" if r["level"] == "ro" else "md"
+        i = idx[r["entry"]]
+        lines, outcome = vlib.run_impl(exe, "", args=[op, tm[(r["backend"], r["state"])], os.path.join(ck.work, "replay.cgns"), str(i), str(i + 1)], cwd=ck.work)
+        rr, _ = parse_lines(lines)
+        fails = outcome != "ok" or any(x.get("file") == "CHANGED" or x.get("view") == "CHANGED" or (op == "md" and x.get("tree") == "CHANGED") or
+                                       (op == "ro" and "what" in r and x.get("st") == "0") for x in rr)
+        det = {"outcome": outcome, "results": rr}
+    elif r.get("level") == "sequence":
+        seq = [idx[nm] for nm in r["sequence"] if nm in idx]
+        fails, det = seq_fails(exe, tm[(r["backend"], r["state"])], ck.work, r["mode"], seq)
+    else:
+        print("replay names a broken obligation/correspondence, no input to run:", json.dumps(r)[:800])
+        return 1
+    print("replay: property C07 on this input: %s %s" % ("FAILS" if fails else "holds", json.dumps(det)[:600]))
+    return 1 if fails else 0
